@@ -39,4 +39,39 @@ CHECKS = {
         assumptions=["float64 threshold comparison agrees with the exact integer test for N < 2^45 (sampled)", "block numbers + N < 2^64"],
         trusted_base=["exact-arithmetic twin of the float64 threshold test (Model/Epoch.lean reached)"],
     ),
+    "C08": dict(
+        modules=["AggkitModel.Properties.C08"],
+        scenarios=[dict(name="tree")],
+        generated=[],
+        leanchecker=True,
+        level_text="Proved in Lean 4 for every tree height and every hash algebra, under collision-freedom (H.Inj): C08_appendonly — after ANY well-formed history "
+                   "(unbounded list of blocks that commit or are rolled back at any point incl. a fault inside AddLeaf, restarts, reorgs) every stored root version m and every "
+                   "position i<m: GetLeaf returns the i-th surviving leaf and CalculateRoot(leaf, GetProof(i, root), i) = root; C08_roots_are_versions ties the quantified versions to the "
+                   "rows of the root table; C08_updatable_step — an UpsertLeaf on a closed store yields the spec root of the updated leaves and every written position verifies (one-step "
+                   "form; lifting over upsert histories is by the same monotone invariant). Proof stack: frontier loop (addLoop_full), node-store invariants Consistent/Closed, getSiblings_spec "
+                   "(zero-hash fallback included), calcRoot_spec, initCache correctness, history induction (runHistory_inv). Tie: the real tree package (SQLite, real Tx + rollback callbacks) and the "
+                   "compiled Lean model run the same op lines (adds, rollbacks, failing adds, restarts, reorgs, fabricated high-index pre-states at 2^k boundaries, upserts) and all observations are compared; "
+                   "monitors check every (root, covered position) pair with CalculateRoot on the implementation.",
+        level_note="Trusted: Lean kernel; H.Inj idealisation of Keccak; hand-written model of tree/*.go tied by the correspondence run (generator-bounded); SQLite/meddler exercised, not modelled; "
+                   "read faults (failing SELECTs inside initCache) are outside the model.",
+        rule="seeded worlds: append-only (1-6 adds per tx, commit/rollback/failing add, restart, reorg at random points in [first-1, tip+2]), fabricated pre-states at counts 2^k-1,2^k,2^k+1, "
+             "updatable worlds over boundary positions; distinct non-trivial case = distinct (root, covered position) pair verified",
+        assumptions=["H.Inj (no Keccak collisions)", "deposit counts consecutive, block numbers increasing, leaf hashes non-zero (WFhistory)"],
+        trusted_base=["model of package tree (Model/Tree.lean, TreeMachine.lean)", "Lean Keccak-256 used by the driver (validated against go-ethereum in scenario keccak)"],
+    ),
+    "C01": dict(
+        modules=["AggkitModel.Properties.C01"],
+        scenarios=[dict(name="tree")],
+        generated=[],
+        leanchecker=True,
+        level_text="Proved in Lean 4 (any height, any hash algebra, H.Inj): C01_root — after ANY well-formed history (blocks committed or rolled back at any point, restarts, reorgs) the root reported "
+                   "for deposit count i equals DC.getRoot after i+1 deposits, DC being the deposit contract's incremental tree (_addLeaf/getRoot modelled from the published algorithm; contract_root proves it equals the "
+                   "spec root for all counts and carry patterns); C01_partition_irrelevant — the reported roots depend only on the surviving deposits. Tie: real tree package vs compiled model vs the "
+                   "contract algorithm in Go, incl. fabricated pre-states at every 2^k boundary up to 2^32-2.",
+        level_note="Trusted: Lean kernel; H.Inj; model/code correspondence (generator-bounded); the Solidity contract is modelled by hand (DC) and cross-checked against an independent Go port, not against bytecode. "
+                   "The leaf-value half (Bridge.Hash = getLeafValue) is decided by the bridge-store correspondence/monitor, not by a theorem.",
+        rule="same worlds as C08; every committed deposit's root compared with the contract algorithm; distinct non-trivial = distinct (root, position) pairs",
+        assumptions=["H.Inj", "WFhistory (consecutive deposit counts etc.)"],
+        trusted_base=["model of package tree", "hand model of DepositContractBase (Model/Contract.lean)"],
+    ),
 }
